@@ -309,10 +309,10 @@ theorem C07_inert_pow_public (a : LinComb) (n : Nat) : Inert false p res (fun _ 
 /-- power with a secret exponent (any exponent value), over a prime modulus -/
 theorem C07_inert_pow_secret {q : Nat} (hq : q.Prime) (a e : LinComb) :
     Inert false (q : Int) res (fun _ => True) (powLL a e) := powLL_inert a e (SmallOk.of_prime hq false)
-/-- shifts by a public count (a negative count of `<<` is Python's own `ValueError`) -/
-theorem C07_inert_shifts (a : LinComb) {n : Int} (hn : 0 ≤ n) (m : Int) :
+/-- shifts by a public count (a negative count of `<<` or `>>` is Python's own `ValueError`) -/
+theorem C07_inert_shifts (a : LinComb) {n : Int} (hn : 0 ≤ n) {m : Int} (hm : 0 ≤ m) :
     Inert false p res (fun _ => True) (lshiftLI a n) ∧ Inert false p res (fun _ => True) (rshiftLI a m) :=
-  ⟨lshiftLI_inert a hn, rshiftLI_inert a m⟩
+  ⟨lshiftLI_inert a hn, rshiftLI_inert a hm⟩
 /-- `&`, `|`, `^` with a secret or a public operand, `~`, `abs`, selection: all operand values -/
 theorem C07_inert_bitwise (a b c t f : LinComb) (k : Int) :
     Inert false p res (fun _ => True) (andLL a b) ∧ Inert false p res (fun _ => True) (orLL a b) ∧
